@@ -13,6 +13,7 @@ import (
 	"github.com/relex/slog-agent/base"
 	"github.com/relex/slog-agent/defs"
 	"github.com/relex/slog-agent/util"
+	"github.com/relex/slog-agent/util/vhook"
 )
 
 // clientSession represents a session bound to one forwarding connection
@@ -184,6 +185,7 @@ func (session *clientSession) sendChunk(chunk base.LogChunk) (bool, reconnectPol
 		return false, reconnectWithDelay
 	}
 
+	vhook.At("session.send.afterSend")
 	// pass forwarded chunk to acknowledger
 	select {
 	case session.ackerChan <- chunk:
@@ -322,6 +324,7 @@ func (session *clientSession) runAcknowledger() {
 				pendingChunksByID[chunk.ID] = chunk
 				nextChunk = chunk
 				clogger.Debugf("received pending chunk %s", chunk.ID)
+				vhook.At("session.acker.afterTake")
 			case <-session.ackerAbort.Channel():
 				clogger.Info("stop requested, abort acknowledger")
 				return
@@ -357,6 +360,7 @@ func (session *clientSession) runAcknowledger() {
 
 		// clean up the chunk we just processed
 		delete(pendingChunksByID, nextChunk.ID)
+		vhook.At("session.acker.beforeConsumed")
 		session.onChunkAcked(nextChunk)
 		session.metrics.OnAcknowledged(nextChunk)
 	}
